@@ -31,10 +31,12 @@ func checkC10(w *World, c *Check) {
 			ex := w.NewExec()
 			var dedupArgs []Value
 			var dedupC *Term = TFalse
+			var dedupRes Value
 			ex.hooks["ItemCollectionDeduplication"] = func(ex *Exec, st *State, f *ssa.Function, a []Value) (Value, bool) {
 				dedupArgs = append(dedupArgs, a[0])
 				dedupC = Or(dedupC, st.pc)
-				return ex.symValue(f.Signature.Results().At(0).Type(), varNamer("dedup"), false), true
+				dedupRes = ex.symValue(f.Signature.Results().At(0).Type(), varNamer("dedup"), false)
+				return dedupRes, true
 			}
 			var rfaC *Term = TFalse
 			var rfaItems Value
@@ -49,11 +51,17 @@ func checkC10(w *World, c *Check) {
 			_, obj, sv := ex.symItemOfType(T, "x")
 			ptr := &PtrVal{Alts: []PtrAlt{{C: TTrue, O: obj}}}
 			fn := w.Method("*"+n, "Recipients")
-			ex.Call(st, fn, []Value{ptr}, nil)
+			ret := ex.Call(st, fn, []Value{ptr}, nil)
 			common := append([]*Term{ex.NoPanic()}, ex.assumes...)
 			pos := ex.pos(fn.Pos())
 			fns := []string{"(*" + n + ").Recipients"}
 			rp := c10Replay(n)
+			if rs, ok := ret.(*SliceVal); ok && dedupRes != nil {
+				// what Recipients hands back is the de-duplicated list, nothing else
+				c.Add(&Obligation{Name: grp + "/wiring/returns-the-deduplicated-list", Group: grp, Common: common, Goal: ex.sliceIdentical(rs, dedupRes.(*SliceVal)), Pos: pos, Funcs: fns, Replay: rp})
+			} else {
+				c.Add(&Obligation{Name: grp + "/wiring/returns-the-deduplicated-list", Goal: TFalse, Pos: pos, Funcs: fns, Replay: rp})
+			}
 			if len(dedupArgs) != 1 {
 				c.Add(&Obligation{Name: grp + "/wiring/one-dedup-call", Goal: BoolLit(len(dedupArgs) == 1), Pos: pos, Funcs: fns, Replay: rp})
 				return
